@@ -31,6 +31,7 @@ for sid in ids:
     meta = json.load(open(os.path.join(d, 'meta.json')))
     ps = props or [meta['property']]
     if scratch:
+        subprocess.run('rsync -a --delete %s/native/src %s/native/' % (V, scratch), shell=True)       # the driver may have changed meanwhile
         r = subprocess.run('cd %s/repo && patch -p1 -s < %s/patch.diff' % (scratch, d), shell=True, capture_output=True, text=True)
     else:
         r = subprocess.run('git -C /repo apply %s/patch.diff' % d, shell=True, capture_output=True, text=True)
